@@ -19,7 +19,11 @@ Inductive fobs :=
 
 Record case := { c_text : list N; c_kind : N; c_first : N; c_last : N; c_index : nat;
                  c_whole : bool;   (* the error kind annotates the whole entry, not a tracked span *)
-                 c_fake : fobs; c_cli : fobs }.
+                 c_fake : fobs; c_cli : fobs;
+                 (* the built binary started in a chosen current directory with the root file named
+                    by a relative path (one observation per spelling; [] = leg not run for the case);
+                    d_path_ok there: the named path, resolved from that directory, IS the file *)
+                 c_cmd : list fobs }.
 
 Definition within (lo hi x : N) : bool := (lo <=? x) && (x <=? hi).
 
@@ -32,7 +36,8 @@ Definition leg_spec (c : case) (f : fobs) : bool :=
       match d_header d with Some (l, _) => within (c_first c) (c_last c) l | None => true end
   | _ => false
   end.
-Definition spec_holds (c : case) : bool := leg_spec c (c_fake c) && leg_spec c (c_cli c).
+Definition spec_holds (c : case) : bool :=
+  leg_spec c (c_fake c) && leg_spec c (c_cli c) && forallb (leg_spec c) (c_cmd c).
 
 (* what the model says about the same file *)
 Definition line_of (bs : list N) (pos : N) : N :=
@@ -80,6 +85,6 @@ Definition leg_model (c : case) (f : fobs) : bool :=
 
 Definition classify (c : case) : N :=
   if negb (spec_holds c) then 2
-  else if leg_model c (c_fake c) && leg_model c (c_cli c) then 0 else 1.
+  else if leg_model c (c_fake c) && leg_model c (c_cli c) && forallb (leg_model c) (c_cmd c) then 0 else 1.
 
 Definition verdicts (cs : list case) : list N := map classify cs.
